@@ -4,6 +4,13 @@ from ..frames.local import to_local
 from ..frames.frames import get_frame
 
 
+def _unpickle(cls, values, data, orb_frame):
+    obj = np.ndarray.__new__(cls, (6, 6), buffer=values, dtype=float)
+    obj._data = data
+    obj._orb_frame = orb_frame
+    return obj
+
+
 class Cov(np.ndarray):
     """Covariance matrix"""
 
@@ -42,6 +49,13 @@ class Cov(np.ndarray):
         obj._orb_frame = orb.frame
 
         return obj
+
+    def __reduce__(self):
+        """For pickling: the frame and the parent orbit ride in ``_data``"""
+        return (
+            _unpickle,
+            (self.__class__, np.array(self, dtype=float), self._data, self._orb_frame),
+        )
 
     def __repr__(self):  # pragma: no cover
         cols = "x,y,z,vx,vy,vz".split(",")
